@@ -37,6 +37,7 @@ func init() {
 	reg.Register("c12.faults", "C12", faults)
 	reg.Register("c12.eof", "C12", eofSweep)
 	reg.Register("c12.reentrant", "C12", reentrant)
+	reg.Register("c12.history", "C12", history)
 }
 
 var (
@@ -327,6 +328,15 @@ type outcome struct {
 	reject    func(k *big.Int) bool   // the algorithm itself discards scalar k and draws again (r=0, r+k=n, s=0, t=0, ...)
 	extra     int                     // documented bytes read after the scalar (IV of the SM9 block modes)
 	full      func(k *big.Int) string // optional: "" iff the complete output is the one the standard defines for nonce k
+	// follow (optional) continues on the very object that made the call: the later steps of the
+	// protocol (key confirmation of a key exchange, a Diffie-Hellman with a freshly generated key)
+	// are run against an honest peer computed by the reference model for scalar k; "" iff the
+	// object behaves as the standard defines for ephemeral secret k. It changes the object's
+	// state (that is part of an object history) and is used by c12.history only.
+	follow func(k *big.Int) string
+	// live (optional, key generators) re-reads the canonical bytes (out) from the returned key
+	// object: they must not change while later calls are made (two keys sharing a buffer share bits).
+	live func() []byte
 }
 
 // call is one prepared invocation (inputs fixed); run may be executed repeatedly on
@@ -386,7 +396,13 @@ func allOps() []*op {
 	var out []*op
 	for _, o := range append(sm2Ops(), sm9Ops()...) {
 		if o.name == "sm2.sign.nistp256" && pureGo() {
-			continue
+			var vs []string
+			for _, v := range o.variants {
+				if strings.HasSuffix(v, curveParams) {
+					vs = append(vs, v)
+				}
+			}
+			o.variants = vs
 		}
 		out = append(out, o)
 	}
@@ -397,7 +413,8 @@ func allOps() []*op {
 // panics in crypto/elliptic.p256Curve.Inverse ("nistec rejected normalized scalar":
 // nistec.P256OrdInverse is a stub under purego while elliptic still routes to it), which
 // sm2.signLegacy calls for NIST P-256 keys. That is a toolchain matter outside the
-// property, so SM2 signing over NIST P-256 is exercised in assembly builds only.
+// property, so there SM2 signing over NIST P-256 is exercised only with keys that name the curve
+// by its generic *elliptic.CurveParams (no Inverse method: signLegacy uses its own fermatInverse).
 func pureGo() bool { return hook.Dispatch()["sm2ec.generic"] }
 
 // ---------------------------------------------------------------------------
